@@ -19,7 +19,7 @@ def main():
 
     def work(c, k):
         v, r = slots[k]
-        cp.run("git checkout -q -- .", r)
+        cp.run("git checkout -q -- . && git clean -fdq src tests", r)
         if patch != "-":
             rc, out = cp.run("git apply %s" % os.path.abspath(patch), r)
             if rc:
@@ -35,7 +35,7 @@ def main():
     # a slot runs one check at a time (the patch stays applied in the slot's worktree for all of them)
     cp.pool(work, checks, nslots)
     for v, r in slots:
-        cp.run("git checkout -q -- .", r)
+        cp.run("git checkout -q -- . && git clean -fdq src tests", r)
     bad = 0
     for c in checks:
         rc, line, err = results.get(c, (98, "no result", ""))
